@@ -1483,6 +1483,9 @@ class Interp:
                 return PyFunc(lambda *a, **k: None, f"super().{name}", True)     # a base class outside the repository
             if name == "__new__":
                 return PyFunc(lambda c, *a, **k: Obj(c.name if isinstance(c, ClassRef) else "object"), "object.__new__", True)
+            if isinstance(me, Obj) and name in me.methods:
+                # the instance was made by a stand-in for an EXTERNAL base class: what the stand-in provides is the base's method
+                return PyFunc(me.methods[name], f"super().{name}", True)
             return Unk(f"super().{name}")
         return Obj("super", {"fmt": "<super>"}, {"__getattr__": getattr_})
 
